@@ -440,8 +440,8 @@ def truncate_and_discretize(node_indices, values=None, truncation_lo=None,
 
 			# Determine lo, hi, step/num for each node. If not provided,
 			# use default settings.
-			lo = lo_dict[n_ind] or DEFAULT_LO
-			hi = hi_dict[n_ind] or DEFAULT_HI
+			lo = lo_dict[n_ind] if lo_dict[n_ind] is not None else DEFAULT_LO
+			hi = hi_dict[n_ind] if hi_dict[n_ind] is not None else DEFAULT_HI
 			if step_dict[n_ind] is not None:
 				step = step_dict[n_ind]
 				num  = int((hi-lo)/step)
